@@ -142,6 +142,20 @@ void vh_fill_msb_boundary(vh_rng *r, uint8_t *buf, size_t n)
     }
 }
 
+/* dst = a value "related" to src: every 1-, 2- or 4-byte segment of dst is a copy of some segment of src (so halves are
+   repeated, swapped or kept), optionally with one bit flipped: exposes comparisons that look at the wrong half / wrong width */
+void vh_related(vh_rng *r, uint8_t *dst, const uint8_t *src, size_t n)
+{
+    static const unsigned gs[3] = {1, 2, 4};
+    size_t g = gs[vh_below(r, 3)], i, nseg;
+    if (!n) return;
+    if (g > n) g = 1;
+    nseg = n / g;
+    memcpy(dst, src, n);
+    for (i = 0; i < nseg; ++i) memcpy(dst + i * g, src + (size_t)vh_below(r, (uint32_t)nseg) * g, g);
+    if (!vh_below(r, 3)) dst[vh_below(r, (uint32_t)n)] ^= (uint8_t)(1u << vh_below(r, 8));
+}
+
 uint32_t vh_wrap_len(vh_rng *r, uint32_t lo, uint32_t hi)
 {
     uint32_t s = 1 + vh_below(r, 5), j = 1 + vh_below(r, (1u << s) - 1), k = lo + vh_below(r, hi - lo + 1);
@@ -605,6 +619,17 @@ void vh_install_fault_handler(void)
 
 #define RO_SLOTS 4
 static uint8_t *ro_page[RO_SLOTS]; static size_t ro_off[RO_SLOTS];
+static size_t ro_align = 64;
+/* like vh_ro_copy, but the copy is only aligned as the object's type requires (align = _Alignof(type)): successive copies
+   walk through every residue of that alignment modulo 64, e.g. 4, 8, 12 ... for a 4-byte aligned schedule */
+const void *vh_ro_copy_al(int slot, const void *obj, size_t n, size_t align)
+{
+    const void *p;
+    ro_align = align ? align : 64;
+    p = vh_ro_copy(slot, obj, n);
+    ro_align = 64;
+    return p;
+}
 const void *vh_ro_copy(int slot, const void *obj, size_t n)
 {
     uint8_t *p;
@@ -613,7 +638,8 @@ const void *vh_ro_copy(int slot, const void *obj, size_t n)
         ro_page[slot] = mmap(NULL, 4 * PG, PROT_READ | PROT_WRITE, MAP_PRIVATE | MAP_ANONYMOUS, -1, 0);
         if (ro_page[slot] == MAP_FAILED) { fprintf(stderr, "vh_ro_copy: mmap failed\n"); exit(2); }
     } else mprotect(ro_page[slot], 4 * PG, PROT_READ | PROT_WRITE);
-    ro_off[slot] = (ro_off[slot] + 64) % 1024;            /* a different (still 64-byte aligned) address each time */
+    ro_off[slot] = (ro_off[slot] + 64 + (ro_align < 64 ? ro_align : 0)) % 1024;            /* a different address each time, aligned to ro_align */
+    ro_off[slot] -= ro_off[slot] % ro_align;
     p = ro_page[slot] + ro_off[slot];
     memcpy(p, obj, n);
     mprotect(ro_page[slot], 4 * PG, PROT_READ);
